@@ -10,7 +10,7 @@ theorem pre_of_append {a b c : Bytes} (h : a ++ b = c) : a = c.take a.length := 
   subst h; simp
 
 theorem inv_step (s s' : St) (a : Act) (h : RInv s) (hs : step s a = some s') : RInv s' := by
-  obtain ⟨h1, h2, h3, h4, h5, h6, h7, h8, h9, h10, h11, h12, h13, h14⟩ := h
+  obtain ⟨h1, h2, h3, h4, h5, h6, h7, h8, h9, h10, h11, h12, h13, h14, h15⟩ := h
   cases a <;> simp only [step] at hs
   case pumpRead =>
     split at hs
